@@ -134,6 +134,17 @@ func compositions(b []byte, withEmpty bool) [][][]byte {
 	return out
 }
 
+// symbols counts the symbols of the enumeration alphabet in t (a two-byte character is one symbol).
+func symbols(t []byte) int {
+	n := 0
+	for _, b := range t {
+		if b&0xc0 != 0x80 {
+			n++
+		}
+	}
+	return n
+}
+
 func main() {
 	f := lib.ParseFlags()
 	if f.Replay != "" {
@@ -165,12 +176,24 @@ func main() {
 		texts = append(texts, next...)
 		frontier = next
 	}
+	// prefixes made of characters that are special to some text machinery a rewrite might reach for
+	// (regexp replacement templates, fmt verbs, regexp and glob metacharacters, escapes, NUL, tab,
+	// carriage return): the prefix is data; they run on the texts of at most 3 symbols in the
+	// writer enumeration and on every text of the one-shot functions
+	specialPrefixes := []string{"$1 ", "$$ ", "${a}> ", "$0", "a$b", "$", "\\1", "\\", "%s ", "%d%%", "%", "^", ".*", "[a]",
+		"(", "\t", "\x00", "\r", "\r\n", " ", "\u2028"}
 	var cases []tcase
 	var goOut []string
 	distinct := lib.NewDistinct()
 	nontrivial := int64(0)
-	for _, pre := range prefixes {
+	for pi, pre := range append(append([]string{}, prefixes...), specialPrefixes...) {
 		for _, t := range texts {
+			if pi >= len(prefixes) && len(t) > 6 { // 3 symbols of at most 2 bytes
+				continue
+			}
+			if pi >= len(prefixes) && symbols(t) > 3 {
+				continue
+			}
 			for _, parts := range compositions(t, len(t) <= 4) {
 				chunks := make([]string, len(parts))
 				for i, p := range parts {
@@ -267,7 +290,7 @@ func main() {
 			fr = next
 		}
 	}
-	for _, pre := range append([]string{"", "\xff", "\xc3"}, prefixes...) {
+	for _, pre := range append(append([]string{"", "\xff", "\xc3"}, prefixes...), specialPrefixes...) {
 		for _, t := range oneTexts {
 			oneReq = append(oneReq, "indent "+lib.HexS(pre)+" "+lib.Hex(t))
 			gs := indent.String(pre, string(t))
@@ -326,7 +349,7 @@ func main() {
 	res.Evaluations = int64(len(cases)+len(oneReq)) + nestedN
 	res.DistinctNontrivial = nontrivial
 	res.Exhaustive = true
-	res.Rule = fmt.Sprintf("complete enumeration: texts of <= %d symbols over {a, LF, e-acute(2 bytes)} x prefixes {>, >>, e-acute} x all splittings of the bytes into Write calls (plus empty Writes) x (no failure | the underlying writer stopping after k bytes of any one Write, k = 0..len handed down, k = len meaning full length reported together with an error); comparison stops at the first failing Write. distinct_nontrivial = distinct cases with a line feed in the text and either more than one Write or a short write", maxLen)
+	res.Rule = fmt.Sprintf("complete enumeration: texts of <= %d symbols over {a, LF, e-acute(2 bytes)} x prefixes {>, >>, e-acute, two with a line feed; and, on texts of <= 3 symbols, 21 prefixes of characters special to regexp templates / fmt / regexps / escapes (dollar templates, backslash escapes, percent verbs, regexp metacharacters, NUL, tab, CR, U+2028)} x all splittings of the bytes into Write calls (plus empty Writes) x (no failure | the underlying writer stopping after k bytes of any one Write, k = 0..len handed down, k = len meaning full length reported together with an error); comparison stops at the first failing Write. distinct_nontrivial = distinct cases with a line feed in the text and either more than one Write or a short write", maxLen)
 	res.Distribution["all_success_cases"] = full
 	res.Distribution["short_write_cases"] = short
 	res.Distribution["oneshot_cases"] = len(oneReq)
